@@ -32,7 +32,16 @@ RULE = ('E1: every public encoder (21 functions of pamqp.encode, by_type '
         'm*2^k for every k -1080..1024; strings, table keys and arrays of '
         'every length 0..299 in 1-4 byte characters. Oracle: the call raises, or decoding its output yields a '
         'value == the normalised input (and every other argument '
-        'unchanged). A case is (entry point, value); non-trivial = all.')
+        'unchanged). A case is (entry point, value); non-trivial = all.'
+        ' '
+        'Also: numbers must keep their kind (2 is not 2.0); '
+        'homogeneous arrays and tables through the size thresholds '
+        '0..69, 100, 127..129, 255..257, 400, 511..513, 1024..1025 '
+        'with a foreign element; Decimals with exponents up to 10^18, '
+        'one task per exponent under a 2 GiB address-space cap '
+        '(MemoryError and a call that never returns are verdicts); '
+        'wrong-typed values equal to a right-typed default; 80 '
+        'look-alike strings.')
 BOUNDS = {'quick': {'decimal_exponents': '-300..12', 'pairs_of_bits': 'no'},
           'thorough': {'decimal_exponents': '-400..40', 'pairs_of_bits':
                        'all pairs of bit arguments x adversarial values'}}
